@@ -55,6 +55,7 @@ package tree
 //@   ensures (result != nil && isErr(result, sql.ErrNoRows)) ==> !rhtHas(caller.t)[caller.nodeHash]
 //@   ensures (result != nil && !isErr(result, sql.ErrNoRows)) ==> !isErr(result, errvar("db.ErrNotFound"))
 //@ func (t *Tree) getRHTNode (t, tx, nodeHash)
+//@   threads tx
 //@   props C01 C08 C11
 //@   definitional
 //@   assert call:QueryRow arg0 == tx && typeIs(arg1, *types.TreeNode) && cast(arg1, *types.TreeNode) == node
@@ -68,6 +69,7 @@ package tree
 //@   ensures plainErr(result1)
 
 //@ func (t *Tree) GetLeaf (t, tx, index, root)
+//@   threads tx
 //@   props C08
 //@   requires t != nil
 //@   ensures[leaf] result1 == nil ==> result0 == desc(rhtL(t), rhtR(t), root, index, 0)
@@ -76,6 +78,7 @@ package tree
 //@   loop 0 unroll 32
 
 //@ func (t *Tree) getSiblings (t, tx, index, root)
+//@   threads tx
 //@   props C08 C09 C12
 //@   requires t != nil && len(t.zeroHashes) == 33
 //@   ensures[proof-verifies] (err == nil && !hasUsedZeroHashes) ==> foldUp(desc(rhtL(t), rhtR(t), root, index, 0), siblings, index, 32) == root
@@ -146,6 +149,7 @@ package tree
 // which row the ORDER BY block_num, block_position of getLastRootWithTx ranks last afterwards: the old one or the new one
 //@   ensures result == nil ==> rootLastIdx(caller.t) == old(rootLastIdx(caller.t)) || rootLastIdx(caller.t) == cast(src, *types.Root).Index
 //@ func (t *Tree) storeRoot (t, tx, root)
+//@   threads tx
 //@   props C01 C07 C11
 //@   assert call:Insert arg0 == tx && arg1 == t.rootTable
 //@   requires t != nil
@@ -171,6 +175,7 @@ package tree
 //@   ensures result != nil ==> rhtHas(caller.t) == old(rhtHas(caller.t)) && rhtL(caller.t) == old(rhtL(caller.t)) && rhtR(caller.t) == old(rhtR(caller.t))
 
 //@ func (t *Tree) storeNodes (t, tx, nodes)
+//@   threads tx
 //@   props C01 C04 C07 C08 C09 C11 C12
 //@   requires t != nil
 //@   requires forall(k, 0, len(nodes), nodes[k].Hash == H(nodes[k].Left, nodes[k].Right))
@@ -197,6 +202,7 @@ package tree
 //@   ensures (result != nil && !isErr(result, sql.ErrNoRows)) ==> !isErr(result, errvar("db.ErrNotFound"))
 //@   ensures result == nil ==> rootLastIdx(caller.t) >= 0 && cast(dst, *types.Root).Index == rootLastIdx(caller.t) && rootHas(caller.t)[cast(dst, *types.Root).Index] && cast(dst, *types.Root).Hash == rootHash(caller.t)[cast(dst, *types.Root).Index]
 //@ func (t *Tree) getLastRootWithTx (t, tx)
+//@   threads tx
 //@   props C01 C04 C07 C08 C11
 //@   sqltext "SELECT * FROM %s ORDER BY block_num DESC, block_position DESC LIMIT 1;"
 //@   requires t != nil
@@ -206,6 +212,7 @@ package tree
 //@   ensures[the-row-ranked-last] result1 == nil ==> rootLastIdx(t) >= 0 && result0.Index == rootLastIdx(t) && rootHas(t)[result0.Index] && result0.Hash == rootHash(t)[result0.Index]
 
 //@ func (t *Tree) GetLastRoot (t, tx)
+//@   threads tx
 //@   props C07 C11 C14
 //@   requires t != nil
 //@   modifies nothing
@@ -228,6 +235,7 @@ package tree
 // whose last row is the mirrored contract's current root (index = deposit count - 1) yields exactly the contract's
 // frontier at every level the next append reads (the levels where the next index has a one bit).
 //@ func (t *AppendOnlyTree) initCache (t, tx)
+//@   threads tx
 //@   props C01 C07 C08
 //@   requires t != nil && t.Tree != nil
 //@   modifies t.lastIndex, t.lastLeftCache
@@ -248,6 +256,7 @@ package tree
 //@   ensures[undo-step] t.lastIndex == undoStep(old(t.lastIndex))
 
 //@ func (t *AppendOnlyTree) AddLeaf (t, tx, blockNum, blockPosition, leaf)
+//@   threads tx
 //@   props C01 C07 C08
 //@   requires t != nil && t.Tree != nil && tx != nil
 //@   requires rhtOK(rhtHas(t.Tree), rhtL(t.Tree), rhtR(t.Tree))
@@ -293,6 +302,7 @@ package tree
 // second behaviour of AddLeaf: any state of the in-memory frontier (first leaf after a start, after a reorg or a
 // rollback: the frontier is rebuilt first). Only the transaction-level effects are stated here.
 //@ func (t *AppendOnlyTree) AddLeaf (t, tx, blockNum, blockPosition, leaf)
+//@   threads tx
 //@   behavior any
 //@   props C01 C07 C08 C14
 //@   requires t != nil && t.Tree != nil && tx != nil && len(t.zeroHashes) == 33
@@ -320,6 +330,7 @@ package tree
 //@ ghost field leafNow map[int]Hash
 //@ ghost var upsertCalls int
 //@ func (t *UpdatableTree) UpsertLeaf (t, tx, blockNum, blockPosition, leaf)
+//@   threads tx
 //@   props C11 C07
 //@   requires t != nil && t.Tree != nil && tx != nil && len(t.zeroHashes) == 33
 //@   requires rhtOK(rhtHas(t.Tree), rhtL(t.Tree), rhtR(t.Tree))
@@ -348,6 +359,7 @@ package tree
 //@   ensures result1 != nil ==> rootHas(caller.t) == old(rootHas(caller.t))
 
 //@ func (t *Tree) Reorg (t, tx, firstReorgedBlock)
+//@   threads tx
 //@   props C04
 //@   sqltext "DELETE FROM %s WHERE block_num >= $1"
 //@   requires t != nil && tx != nil
